@@ -5,9 +5,16 @@ EXTENDS SparqlSem, Json, IOUtils
 Ev == ndJsonDeserialize(IOEnv.TRACE)
 VARIABLES l, D
 TripleSet(ts) == {<<ts[i][1], ts[i][2], ts[i][3]>> : i \in DOMAIN ts}
+\* an update over a WHERE group with VALUES: the translator drops VALUES blocks (known finding, SparqlSem!StripValues), so the
+\* engine may apply the update of the stripped group; the dump that follows every pattern update tells which one it applied
+StripU(u) == [u EXCEPT !.where = StripG(@)]
+NextDump(i) == IF i < Len(Ev) /\ Ev[i + 1].a = "dump" /\ ~Ev[i + 1].err /\ ~Ev[i + 1].panic THEN TripleSet(Ev[i + 1].rows) ELSE {<<0, 0, 0>>}
+AsStripped(e, i) == /\ HasValuesG(e.u.where) /\ Update(D, e.u) # Update(D, StripU(e.u))
+                    /\ NextDump(i) = Update(D, StripU(e.u))
 Bad(e) == IF e.panic THEN {"panic"}
           ELSE CASE e.a = "reset" -> {}
-                 [] e.a \in {"insert", "delete", "update", "delwhere", "clear"} -> IF e.err THEN {"update_error"} ELSE {}
+                 [] e.a = "update" -> IF e.err THEN {"update_error"} ELSE IF AsStripped(e, l) THEN {"values_ignored"} ELSE {}
+                 [] e.a \in {"insert", "delete", "delwhere", "clear"} -> IF e.err THEN {"update_error"} ELSE {}
                  [] e.a = "query" -> IF e.err THEN {"query_error"} ELSE IF Agrees(D, e.q, e.rows) THEN {}
                                       ELSE IF HasValuesG(e.q.where) /\ Agrees(D, StripValues(e.q), e.rows) THEN {"values_ignored"} ELSE {"solutions"}
                  \* the whole data set read back through SELECT * must be D (after updates)
@@ -19,7 +26,7 @@ Step == /\ l <= Len(Ev)
              /\ D' = (CASE e.a = "reset" -> {}
                         [] e.a = "insert" -> D \cup TripleSet(e.ts)
                         [] e.a = "delete" -> D \ TripleSet(e.ts)
-                        [] e.a = "update" -> IF e.err \/ e.panic THEN D ELSE Update(D, e.u)
+                        [] e.a = "update" -> IF e.err \/ e.panic THEN D ELSE IF AsStripped(e, l) THEN Update(D, StripU(e.u)) ELSE Update(D, e.u)
                         [] e.a = "delwhere" -> IF e.err \/ e.panic THEN D ELSE DeleteWhere(D, e.tps)
                         [] e.a = "clear" -> IF e.err \/ e.panic THEN D ELSE {}
                         \* a dump that disagrees is reported once; the model continues from what the engine holds, so
